@@ -25,14 +25,21 @@ def _group_sets(draw, distinct=None, max_size=10, min_each=0):
     if distinct is None:
         distinct = draw(st.booleans())
     s = draw(gen.score_sets(min_pos=min_each, min_neg=min_each, max_size=max_size,
-                            modes=("distinct",) if distinct else ("grid", "grid", "dyadic", "int"),
+                            modes=("distinct",) if distinct else ("grid", "grid", "dyadic", "int", "uint"),
                             easy=False))
     idx = st.integers(0, G - 1)
     pg = draw(st.lists(idx, min_size=len(s["pos"]), max_size=len(s["pos"])))
     ng = draw(st.lists(idx, min_size=len(s["neg"]), max_size=len(s["neg"])))
     sc, ec = draw(gen.CONFIG)
+    # explicitly provided group names ("used as is and not sorted"), possibly naming a group
+    # without members
+    given = None
+    if draw(st.integers(0, 2)) == 0:
+        used = sorted(set(pg) | set(ng))
+        extra = [i for i in range(G) if i not in used][:1] if draw(st.booleans()) else []
+        given = list(draw(st.permutations(used + extra)))
     return dict(kind=kind, names=names, pos=s["pos"], neg=s["neg"], pg=pg, ng=ng, sc=sc, ec=ec,
-                mode=s["mode"], distinct=distinct)
+                mode=s["mode"], distinct=distinct, given_names=given)
 
 
 def _labels(d, which):
@@ -43,9 +50,13 @@ def _labels(d, which):
 def _make(d, via="ctor", is_sorted=False):
     from score_analysis import GroupScores
 
-    dt = int if d["mode"] == "int" else float
+    dt = {"int": int, "uint": np.uint8}.get(d["mode"], float)
     pos, neg = np.asarray(d["pos"], dtype=dt), np.asarray(d["neg"], dtype=dt)
     pg, ng = _labels(d, "pg"), _labels(d, "ng")
+    kw = {}
+    if d.get("given_names") is not None and via != "labels":
+        kw["group_names"] = np.asarray([d["names"][i] for i in d["given_names"]],
+                                       dtype=str if d["kind"] == "str" else int)
     if via == "labels":
         labels = np.concatenate([np.ones(len(pos), dtype=int), np.zeros(len(neg), dtype=int)])
         scores = np.concatenate([pos, neg])
@@ -57,7 +68,7 @@ def _make(d, via="ctor", is_sorted=False):
         ip, ineg = np.argsort(pos, kind="stable"), np.argsort(neg, kind="stable")
         pos, neg, pg, ng = pos[ip], neg[ineg], pg[ip], ng[ineg]
     return GroupScores(pos, neg, pos_groups=pg, neg_groups=ng, score_class=d["sc"],
-                       equal_class=d["ec"], is_sorted=is_sorted)
+                       equal_class=d["ec"], is_sorted=is_sorted, **kw)
 
 
 def _py(x):
@@ -90,6 +101,8 @@ def input_triples(d, swap=False):
 
 
 def present_names(d):
+    if d.get("given_names") is not None and d.get("_via", "ctor") != "labels":
+        return [d["names"][i] for i in d["given_names"]]
     used = sorted(set(d["pg"]) | set(d["ng"]))
     return sorted((d["names"][i] for i in used))
 
@@ -164,14 +177,16 @@ def check_structure(case):
     if not d["pos"] and not d["neg"]:
         return dict(nontrivial=False, labels=["empty"])
     thr = gen.np_array(case["thr"]["flat"], tuple(case["thr"]["shape"]))
+    d = dict(d, _via=case["via"])
     g = _make(d, via="labels" if case["via"] == "labels" else "ctor", is_sorted=case["via"] == "sorted")
     check_object(g, d, thr, f"via={case['via']} config={d['sc']}/{d['ec']}")
+    d = dict(d, given_names=None)  # swap() and the objects built below do not pass group_names
     if case["via"] == "ctor":
         # the caller's arrays stay as they were, so a second object over the same arrays (e.g. with
         # another grouping variable) sees the same (score, group) pairs
         from score_analysis import GroupScores
 
-        dt = int if d["mode"] == "int" else float
+        dt = {"int": int, "uint": np.uint8}.get(d["mode"], float)
         pos, neg = np.asarray(d["pos"], dtype=dt), np.asarray(d["neg"], dtype=dt)
         pg, ng = _labels(d, "pg"), _labels(d, "ng")
         g1 = GroupScores(pos, neg, pos_groups=pg, neg_groups=ng, score_class=d["sc"], equal_class=d["ec"])
@@ -338,9 +353,7 @@ def check_history(case):
             # sample lost may disappear); the property only claims the list for samples.
             new_names = g.groups.tolist()
             present = {lab for (_, lab, _) in t}
-            require(present <= {_norm(x) for x in new_names}
-                    and [x for x in names if _norm(x) in {_norm(y) for y in new_names}]
-                    == [x for x in new_names], "grp:swap-names",
+            require(present <= {_norm(x) for x in new_names}, "grp:swap-names",
                     f"{ctx}: {new_names} after swap of {names}")
             names = new_names
         elif op == "sample":
